@@ -216,7 +216,7 @@ def run_node_property(prop, tier, seed, replay, t0, *, module, gen, n_quick, n_t
     return rc
 
 
-def storage(prop, module, spec_prefixes, corr_kinds, assumptions, n_quick=160, n_thorough=3000):
+def storage(prop, module, spec_prefixes, corr_kinds, assumptions, n_quick=400, n_thorough=4000):
     def run(p, tier, seed, replay, t0):
         return run_node_property(p, tier, seed, replay, t0, module=module, gen=gen_storage.gen,
                                  n_quick=n_quick, n_thorough=n_thorough, spec_prefixes=spec_prefixes,
@@ -237,7 +237,7 @@ POLL_CLASSES = ["poll-", "cur", "get-offset", "store-offset", "offset-"]
 
 PROPS["C17"] = {"run": lambda p, tier, seed, replay, t0: run_node_property(
     p, tier, seed, replay, t0, module="Iggy.Props.C17", gen=gen_storage.gen_c17,
-    n_quick=120, n_thorough=2500, spec_prefixes=["poll-"],
+    n_quick=300, n_thorough=3500, spec_prefixes=["poll-"],
     corr_kinds={"send", "poll-offsets", "poll-content", "poll-cur", "poll-status", "poll-partition",
                 "create-parts", "delete-parts"},
     assumptions=ASSUME_NODE + ["xxhash32 is a parameter of the theorems (all hash values); the real calculate_32 is called through the harness and its value fed to the model"])}
@@ -253,7 +253,7 @@ PROPS["C18"] = storage("C18", "Iggy.Props.C18", ["poll-", "obs-changed"], ALL_PO
                        ASSUME_NODE + ["within the configured id capacity and time-to-live: the harness configures 10^6 ids / 10 h, the model has no eviction (moka's eviction is outside the property)"])
 
 
-def retention(prop, module, spec_prefixes, corr_kinds, assumptions, n_quick=140, n_thorough=2500, mix=False):
+def retention(prop, module, spec_prefixes, corr_kinds, assumptions, n_quick=350, n_thorough=3500, mix=False):
     def g(rng, focus, k=None, maxops=40):
         if mix and k is not None and k % 2 == 1:
             return gen_storage.gen(rng, focus, k, maxops)
@@ -279,7 +279,7 @@ PROPS["C16"] = retention("C16", "Iggy.Props.C16", ["figures-"], {"figures"}, ASS
 import gen_catalog
 
 
-def catalog(prop, module, spec_prefixes, corr_kinds, assumptions, n_quick=140, n_thorough=2500):
+def catalog(prop, module, spec_prefixes, corr_kinds, assumptions, n_quick=350, n_thorough=3500):
     def run(p, tier, seed, replay, t0):
         return run_node_property(p, tier, seed, replay, t0, module=module, gen=gen_catalog.gen,
                                  n_quick=n_quick, n_thorough=n_thorough, spec_prefixes=spec_prefixes,
@@ -533,7 +533,7 @@ def run_c09(prop, tier, seed, replay, t0):
             print(m)
         return 1
     return run_node_property(
-        prop, tier, seed, None, t0, module=module, gen=gen_auth.gen, n_quick=80, n_thorough=1500,
+        prop, tier, seed, None, t0, module=module, gen=gen_auth.gen, n_quick=200, n_thorough=2500,
         spec_prefixes=["unauthenticated-allowed", "unauthorized-allowed"],
         corr_kinds=None,
         assumptions=ASSUME_NODE + ["completeness is not claimed (the property is one-directional: no escalation)",
@@ -556,7 +556,7 @@ def _gen_c05(rng, focus, k=None, maxops=40):
 
 
 PROPS["C05"] = {"run": lambda p, tier, seed, replay, t0: run_node_property(
-    p, tier, seed, replay, t0, module="Iggy.Props.C05", gen=_gen_c05, n_quick=150, n_thorough=2500,
+    p, tier, seed, replay, t0, module="Iggy.Props.C05", gen=_gen_c05, n_quick=350, n_thorough=3500,
     spec_prefixes=["obs-changed-restart", "poll-"],
     corr_kinds=CAT_KINDS | {"users", "user", "create-user", "delete-user", "update-user", "update-perms", "change-pw",
                             "create-pat", "delete-pat", "pats", "login", "login-pat"},
@@ -565,7 +565,7 @@ PROPS["C06"] = catalog("C06", "Iggy.Props.C06", ["obs-changed", "poll-", "group-
 
 import gen_crypto
 PROPS["C19"] = {"run": lambda p, tier, seed, replay, t0: run_node_property(
-    p, tier, seed, replay, t0, module="Iggy.Props.C19", gen=gen_crypto.gen, n_quick=100, n_thorough=1500,
+    p, tier, seed, replay, t0, module="Iggy.Props.C19", gen=gen_crypto.gen, n_quick=250, n_thorough=2500,
     spec_prefixes=["secret-in-clear", "wrong-key-accepted", "poll-", "obs-changed"],
     corr_kinds={"send", "poll-offsets", "poll-content", "poll-cur", "poll-status", "figures", "restart"},
     assumptions=ASSUME_NODE + [
@@ -575,7 +575,7 @@ PROPS["C19"] = {"run": lambda p, tier, seed, replay, t0: run_node_property(
 
 import gen_auth
 PROPS["C10"] = {"run": lambda p, tier, seed, replay, t0: run_node_property(
-    p, tier, seed, replay, t0, module="Iggy.Props.C10", gen=gen_auth.gen, n_quick=120, n_thorough=2000,
+    p, tier, seed, replay, t0, module="Iggy.Props.C10", gen=gen_auth.gen, n_quick=300, n_thorough=3000,
     spec_prefixes=["secret-in-clear", "obs-changed", "credential-"],
     corr_kinds={"login", "login-pat", "logout", "create-user", "delete-user", "update-user", "update-perms",
                 "change-pw", "user", "users", "create-pat", "delete-pat", "pats", "clean-pats", "me", "restart"},
@@ -888,7 +888,7 @@ def run_c13(prop, tier, seed, replay, t0):
         cfg, ops = g(rng, {0: "C06", 1: "C02", 2: "C10"}[(k // 2) % 3], k, maxops)
         return gen_http.httpify(rng, cfg, ops, share=0.7)
     return run_node_property(
-        prop, tier, seed, None, t0, module=module, gen=mixed, n_quick=64, n_thorough=2000, http=False,
+        prop, tier, seed, None, t0, module=module, gen=mixed, n_quick=128, n_thorough=2500, http=False,
         spec_prefixes=["malformed-frame-effect", "obs-changed", "poll-", "get-offset", "store-offset", "figures-"], corr_kinds=None,
         assumptions=ASSUME_NODE + [
             "HTTP/JSON: not modelled byte by byte; half of the node histories send about 70% of their requests through the real HTTP API (server handlers + SDK HttpClient) and every answer is compared with the same model; QUIC (same binary codec) is not driven",
@@ -902,7 +902,7 @@ PROPS["C13"] = {"run": run_c13}
 import gen_sdk
 PROPS["C20"] = {"run": lambda p, tier, seed, replay, t0: run_node_property(
     p, tier, seed, replay, t0, module="Iggy.Props.C20", gen=gen_sdk.gen_any, http=False,
-    n_quick=64, n_thorough=1500,
+    n_quick=160, n_thorough=2000,
     spec_prefixes=["producer-", "consumer-", "group-", "commit-", "sdk-", "hl-", "poll-"],
     corr_kinds={"psend", "cnext", "cstore", "poll-offsets", "poll-content", "poll-cur", "poll-status", "send", "group"},
     assumptions=ASSUME_NODE + [
@@ -920,7 +920,7 @@ PROPS["C20"] = {"run": lambda p, tier, seed, replay, t0: run_node_property(
 import gen_conc
 PROPS["C12"] = {"run": lambda p, tier, seed, replay, t0: run_node_property(
     p, tier, seed, replay, t0, module="Iggy.Props.C12", gen=gen_conc.gen, http=False, more_modules=["Iggy.Props.C12NoWait"],
-    n_quick=48, n_thorough=1200, spec_prefixes=["stress-", "poll-", "obs-changed"],
+    n_quick=96, n_thorough=1500, spec_prefixes=["stress-", "poll-", "obs-changed"],
     corr_kinds=ALL_POLL_KINDS | {"figures"},
     assumptions=ASSUME_NODE + [
         "PARTIAL: the theorems quantify over all orders of lock-granularity atoms (append / poll / save under the partition lock); "
